@@ -288,7 +288,7 @@ type YW struct {
 	Sub   *SimSub
 	Sy    *hsync.Syncer[*H]
 	Space time.Duration
-	Flav  string // datastore flavour handed to the Store: "plain" or "ctx"
+	Flav  string // datastore flavour handed to the Store: "plain", "ctx" or "snap"
 	Opts  []hsync.Option
 	// Halt freezes block production at this height when non-zero.
 	Halt uint64
@@ -319,7 +319,7 @@ func (w *YW) NetHead() uint64 {
 // interleaves with the Syncer's and appends can meet a full write queue.
 func (w *YW) configureDisk() {
 	s := w.S
-	w.Flav = core.Pick(s.Tape, "flavour", []string{"plain", "ctx"})
+	w.Flav = core.Pick(s.Tape, "flavour", []string{"plain", "ctx", "snap"})
 	if s.Tape.Coin("park-disk", 1, 3) {
 		w.Disk.Park = true
 		drng := s.Sub("disk-latency")
